@@ -9,8 +9,10 @@ Case kinds (all JSON):
 Timeouts come only from the script.  Two ways: 'T' = the wrapped socket raises socket.timeout (sockets
 used with timeout=None), and - cases with clk=1 - 'W' = the wall clock passes the deadline: the
 BufferedSocket is then used with timeout=1000.0 and `boltons.socketutils.time` is replaced, for the
-duration of the case, by a scripted clock (FakeClock) that jumps past the deadline exactly when the code
-looks at it with a 'W' at the head of the script, so the `cur_timeout <= 0.0` branches run deterministically.
+duration of each public call, by a complete scripted clock (FakeClock: time / monotonic / perf_counter / *_ns /
+sleep) whose value is a function of the socket events only: it jumps past any deadline when a socket call
+returns and leaves a 'W' at the head of the script, so the deadline branches run deterministically whichever
+clock function the code reads and however often it reads it.
 """
 import itertools
 import socket
@@ -41,6 +43,17 @@ class FakeSock:
         self.rscript = [e for e in rscript]
         self.sscript = [e for e in sscript]
         self.wire = b''
+        self.clock = None           # FakeClock of a clk=1 case: told about every socket event
+        self.w_how = []             # send script: how each 'W' was used up, in order: 'S' the socket raised
+                                    # socket.timeout for it, 'C' a deadline check of the code fired
+
+    def _io_done(self, script):
+        if self.clock is not None:
+            self.clock.after_io(script)
+
+    def _fault(self, ev):
+        if self.clock is not None and ev == 'W':
+            self.clock.consumed_by_socket()
 
     def gettimeout(self):
         return None
@@ -57,15 +70,25 @@ class FakeSock:
         ev = s[0]
         if ev == 'T' or ev == 'W':      # a recv that finds the deadline already passed times out too
             s.pop(0)
+            self._fault(ev)
             raise socket.timeout()
         if ev == 'E':
             s.pop(0)
             raise BlockingIOError(11, 'Resource temporarily unavailable')
         if len(ev) <= n:
             s.pop(0)
+            self._io_done(s)
             return ev
         s[0] = ev[n:]
+        self._io_done(s)
         return ev[:n]
+
+    def recv_into(self, buf, nbytes=0, flags=0):
+        # part of the socket API; the verified code does not use it, a changed one might
+        view = memoryview(buf)
+        data = self.recv(nbytes or len(view), flags)
+        view[:len(data)] = data
+        return len(data)
 
     def send(self, data, flags=0):
         data = bytes(data)
@@ -75,11 +98,15 @@ class FakeSock:
             return len(data)
         ev = s.pop(0)
         if ev == 'T' or ev == 'W':
+            self._fault(ev)
+            if ev == 'W':
+                self.w_how.append('S')
             raise socket.timeout()
         if ev == 'E':
             raise BlockingIOError(11, 'Resource temporarily unavailable')
         k = min(ev[1], len(data))
         self.wire += data[:k]
+        self._io_done(s)
         return k
 
     def sendall(self, data, flags=0):
@@ -95,40 +122,83 @@ class FakeSock:
 
 
 class FakeClock:
-    """Stands in for the `time` module inside boltons.socketutils while a clk=1 case runs.  The first
-    time() of every public call is that call's `start`; a later time() (a deadline check) that finds a
-    'W' at the head of the watched script consumes it and jumps far past any deadline."""
+    """Stands in for the `time` module inside boltons.socketutils while a clk=1 case runs.
 
-    def __init__(self, script):
-        self.script = script
+    The clock is a function of *socket events*, never of how often (or through which function) the code
+    reads it: a socket call that returns normally and leaves a 'W' at the head of the watched script makes
+    the clock jump far past any deadline (the W is then `armed`).  Whatever deadline check the code performs
+    next - time(), monotonic(), perf_counter(), ..._ns(), once or ten times - sees the deadline passed.  Code
+    that performs no check but goes back to the socket gets socket.timeout from the socket (FakeSock pops the
+    W).  Either way the W is used up by exactly one fault: `end_call` removes an armed W when the public call
+    ended in Timeout without the socket having consumed it.  A call that ends without looking at the clock
+    again leaves the W for the next call, whose own deadline starts after the jump."""
+
+    def __init__(self, script=None):
         self.now = 1000.0
-        self.first = True
+        self.armed = None           # the script whose head 'W' made the clock jump during this public call
 
+    # -- driven by the harness / FakeSock
     def begin_call(self):
-        self.first = True
+        self.armed = None
 
-    def time(self):
-        if self.first:
-            self.first = False
-            return self.now
-        if self.script and self.script[0] == 'W':
-            self.script.pop(0)
+    def after_io(self, script):
+        if self.armed is None and script and script[0] == 'W':
+            self.armed = script
             self.now += 1e9
+
+    def consumed_by_socket(self):
+        self.armed = None
+
+    def end_call(self, result, fs=None):
+        sc = self.armed
+        if sc is not None and result == 'timeout' and sc and sc[0] == 'W':
+            sc.pop(0)
+            if fs is not None and sc is fs.sscript:
+                fs.w_how.append('C')
+        self.armed = None
+
+    # -- the `time` module API
+    def time(self):
         return self.now
+
+    monotonic = perf_counter = process_time = thread_time = time
+
+    def time_ns(self):
+        return int(self.now * 1e9)
+
+    monotonic_ns = perf_counter_ns = process_time_ns = thread_time_ns = time_ns
+
+    def sleep(self, secs):
+        return None
+
+    def __getattr__(self, name):
+        import time as _t
+        return getattr(_t, name)
 
 
 class patched_clock:
+    """`boltons.socketutils.time` (and any clock function the module imported by name from `time`) is the
+    scripted clock while one public call runs"""
+
     def __init__(self, clock):
         self.clock = clock
 
     def __enter__(self):
         import boltons.socketutils as su
-        self.su, self.saved = su, su.time
-        su.time = self.clock
+        self.su, self.saved = su, {}
+        for name, val in list(vars(su).items()):
+            if name == 'time' and not callable(val):
+                self.saved[name] = val
+                setattr(su, name, self.clock)
+            elif (callable(val) and getattr(val, '__module__', None) == 'time'
+                  and getattr(val, '__name__', '') in FakeClock.__dict__):
+                self.saved[name] = val
+                setattr(su, name, getattr(self.clock, val.__name__))
         return self.clock
 
     def __exit__(self, *a):
-        self.su.time = self.saved
+        for name, val in self.saved.items():
+            setattr(self.su, name, val)
         return False
 
 
@@ -183,7 +253,7 @@ def cut(stream, sizes):
 class C12(Property):
     PID = 'C12'
     QUICK_BUDGET_S = 34
-    THOROUGH_BUDGET_S = 600
+    THOROUGH_BUDGET_S = 540
     RULE = ('a case is one whole scripted session. rx: constructor recvsize/maxsize, a network script (chunks and '
             'socket.timeout events, then EOF) and a sequence of recv / peek / recv_size / recv_until / recv_close '
             'calls (each retried after Timeout when retry=1), every attempt recording result + getrecvbuffer(); '
@@ -202,14 +272,26 @@ class C12(Property):
             '(cross-instance state); multi-step families: timed-out call followed by a different call, calls '
             'on pre-buffered data (after peek / surplus) with the window boundary inside the buffer; fault cases '
             'where the wrapped socket raises BlockingIOError (E events) instead of timing out; nsr with size prefixes '
-            'only int() accepts (whitespace, sign incl. negative, underscores) and near misses.')
+            'only int() accepts (whitespace, sign incl. negative, underscores) and near misses. Round 3, generated right '
+            'after the configuration cases: dx = ONE BufferedSocket over one scripted socket used in both directions '
+            '(receive-side and send-side calls interleaved, all four observables - result, getrecvbuffer(), '
+            'getsendbuffer(), wire - after every call): exhaustive streams <= 3 bytes x chunkings x one fault of each '
+            'kind (socket.timeout T, deadline expiry W, BlockingIOError E) in every gap x 7 send scripts x 3 interleaved '
+            'families, plus random interleavings of the rx/tx random families; recv/send/sendall with a flags argument '
+            '(0 and non-zero); nonblocking mode (timeout=0.0) for fault cases; return values that are not immutable '
+            'bytes are re-read at the end of the case. The scripted clock jumps as a function of socket events only.')
     ASSUMPTIONS = [
         'the wrapped socket returns b"" from recv only at end of stream, never more than the requested bytes, and '
         'send returns how many bytes it took (scripted FakeSock in harness/bv/props/c12.py)',
-        'timeouts are scripted: raised by the wrapped socket (timeout=None) or, in clk=1 cases, by the '
-        '`cur_timeout <= 0` branches under a scripted clock substituted for boltons.socketutils.time '
-        '(timeout=1000.0); the real wall clock never decides anything',
-        'recvsize >= 1; sizes and maxsize are non-negative ints; flags=0',
+        'timeouts are scripted: raised by the wrapped socket (timeout=None) or, in clk=1 cases, by the code\'s own '
+        'deadline checks under a scripted clock substituted for boltons.socketutils.time (time, monotonic, '
+        'perf_counter, their _ns variants, sleep; timeout=1000.0) whose value depends on the socket events only, '
+        'not on the number of clock reads; the real clock never decides anything',
+        'recvsize >= 1; sizes and maxsize are non-negative ints; non-zero flags are outside the statement: a call '
+        'refused with ValueError must leave every byte in place, a call that takes them is held to the contract of '
+        'the plain call (the scripted socket ignores flags)',
+        'where on the send side the code compares the clock with its deadline is left free: a W event of a send '
+        'script is presented to the model as a deadline event only if a deadline check of the code fired for it',
         'read_ns size prefixes go through int(): the model of int(bytes) (parsePyInt) is compared with this '
         'interpreter\'s int() on every byte string of length <= 4 over a 12-letter alphabet on every run',
         'single-threaded use (the RLocks are not exercised)',
@@ -228,7 +310,53 @@ class C12(Property):
                'def DEFAULT_MAXSIZE : Nat := %d\n'
                'def RECV_LARGE_MAXSIZE : Nat := %d\n'
                'end C12.Gen\n' % (dm, lm))
-        return {'C12_Consts.lean': src}
+        rows = self._ns_window_rows()
+        win = ('/- GENERATED by harness/bv/props/c12.py (regen) by EVALUATING boltons.socketutils.NetstringSocket - do not edit.\n'
+               '   For each maxsize n: the longest size prefix, its `:` included, that read_ns still accepts (measured through\n'
+               '   the public API on the streams `0...0:,`) when n was given to the constructor / to setmaxsize() / as the\n'
+               '   maxsize= argument of read_ns.  Props.lean proves that the model computes the same three numbers. -/\n'
+               'namespace C12.Gen\n'
+               'def nsWindowTable : List (Nat × Nat × Nat × Nat) :=\n  [%s]\n'
+               'end C12.Gen\n' % ',\n   '.join('(%d, %d, %d, %d)' % r for r in rows))
+        return {'C12_Consts.lean': src, 'C12_NsWindow.lean': win}
+
+    NS_WINDOW_DOMAIN = ([0, 1, 5, 9, 10, 11, 99, 100, 101, 999, 1000, 32768, 65535, 99999, 100000] +
+                        [10 ** k - 1 for k in (9, 12, 15, 16, 17, 18)] + [10 ** k for k in (9, 12, 15, 16, 17, 18)] +
+                        [2 ** 31 - 1, 2 ** 31, 2 ** 53, 2 ** 63 - 1, 2 ** 64])
+
+    def _ns_window_rows(self):
+        """evaluate (never pattern-match) how long a size prefix the reader accepts, per configuration path"""
+        from boltons.socketutils import NetstringSocket
+
+        def accepted(n, path, k):
+            try:
+                with time_limit(5):
+                    fake = FakeSock([b'0' * k + b':,'])
+                    if path == 'ctor':
+                        ns, kw = NetstringSocket(fake, timeout=None, maxsize=n), {}
+                    elif path == 'set':
+                        ns, kw = NetstringSocket(fake, timeout=None, maxsize=0), {}
+                        ns.setmaxsize(n)
+                    else:
+                        ns, kw = NetstringSocket(fake, timeout=None, maxsize=0), {'maxsize': n}
+                    ns.bsock.settimeout(None)
+                    return bytes(ns.read_ns(**kw)) == b''
+            except InfraError:
+                raise
+            except BaseException as e:
+                if isinstance(e, (KeyboardInterrupt, SystemExit)):
+                    raise
+                return False
+
+        def window(n, path):
+            w = 1
+            for k in range(1, 40):
+                if accepted(n, path, k):
+                    w = k + 1
+                else:
+                    break
+            return w
+        return [(n, window(n, 'ctor'), window(n, 'set'), window(n, 'arg')) for n in self.NS_WINDOW_DOMAIN]
 
     def extra_checks(self):
         """the generated constants, printed back by the compiled driver, equal the live ones"""
@@ -269,6 +397,9 @@ class C12(Property):
         th = self.thorough
         # -- round 2: small, diverse, adversarial families first
         yield from self.ns_config_cases()
+        yield from self.dx_small()
+        for i in range(30000 if th else 3000):
+            yield self.dx_random(rng)
         yield from self.rx_clock_exhaustive(4 if th else 3)
         yield from self.tx_clock_exhaustive()
         yield from self.rx_multistep(rng, 6000 if th else 1500)
@@ -310,12 +441,14 @@ class C12(Property):
     def deep_cases(self, budget_s):
         rng = self.rng
         yield from self.ns_config_cases()
+        yield from self.dx_small()
         yield from self.rx_clock_exhaustive(4)
         yield from self.tx_clock_exhaustive()
         yield from self.rx_multistep(rng, 5000)
         yield from self.rx_exhaustive(5)
         yield from self.tx_exhaustive()
         while True:
+            yield self.dx_random(rng)
             yield self.duo_random(rng)
             yield self.clk_random(rng)
             yield self.fault_random(rng)
@@ -461,6 +594,8 @@ class C12(Property):
         c['script'] = ['E' if e == 'T' and (i == must or rng.random() < 0.5) else e for i, e in enumerate(sc)]
         if c['k'] == 'tx':
             c['ops'] = c['ops'] + [['f'], ['f']]
+        if rng.random() < 0.5:
+            c['nb'] = 1         # timeout=0.0: the nonblocking paths (`if not timeout`), faults from the socket only
         return c
 
     def rx_multistep(self, rng, count):
@@ -563,6 +698,83 @@ class C12(Property):
         else:
             path[-1] = ['s', ms]
         c['rcfg'] = path
+        return c
+
+    # ---- round 3: ONE BufferedSocket used in both directions, flags, nonblocking mode
+    DX_FAMS = [
+        [['R', ['u', 0, 'U', '6162']], ['S', ['b', '78']], ['R', ['p', 2]], ['S', ['s', '7980']], ['R', ['s', 1]],
+         ['S', ['f']], ['R', ['c', 'U']], ['S', ['f']]],
+        [['S', ['s', '787980']], ['R', ['s', 2]], ['S', ['f']], ['R', ['rf', 1, 2]], ['S', ['sf', '7a', 1]],
+         ['R', ['r', 1]], ['S', ['f']], ['R', ['c', 'N']]],
+        [['R', ['s', 3]], ['S', ['sa', '78']], ['R', ['s', 3]], ['S', ['b', '79']], ['R', ['m', 1]], ['S', ['f']],
+         ['R', ['c', 'U']], ['S', ['saf', '7a', 0]], ['R', ['rf', 2, 0]]],
+    ]
+
+    def dx_small(self):
+        """small exhaustive scope: streams <= 3 bytes over {a,b} x all chunkings x one fault (T / W / E) in every
+        gap x send scripts with one fault x three interleaved families"""
+        sscripts = [[], [['a', 1]], [['a', 1], 'T'], ['W', ['a', 2]], [['a', 2], 'W'], ['E'], [['a', 0], ['a', 1], 'E']]
+        for n in range(1, 4):
+            for t in itertools.product(b'ab', repeat=n):
+                stream = bytes(t)
+                for sizes in compositions(n):
+                    chunks = cut(stream, sizes)
+                    k = len(chunks)
+                    for g in range(k + 2):
+                        for fk in 'TWE':
+                            script = [hx(c) for c in chunks]
+                            if g <= k:
+                                script.insert(g, fk)
+                            elif fk != 'T':
+                                continue
+                            for si, ss in enumerate(sscripts):
+                                for fi, fam in enumerate(self.DX_FAMS):
+                                    if (n + g + si + fi + k) % 3:
+                                        continue
+                                    clk = 1 if ('W' in script or 'W' in ss) else 0
+                                    c = {'k': 'dx', 'rs': (1, 2, 64)[(g + si) % 3], 'ms': (2, 100)[(fi + k) % 2],
+                                         'rscript': script, 'sscript': ss, 'ops': fam}
+                                    if clk:
+                                        c['clk'] = 1
+                                    elif (g + fi) % 2:
+                                        c['nb'] = 1
+                                    yield c
+
+    def dx_random(self, rng):
+        a = self.rx_adversarial(rng) if rng.random() < 0.4 else self.rx_random(rng, onebyte=rng.random() < 0.2)
+        b = self.tx_random(rng)
+        rops = [['R', op] for op in a['ops']]
+        sops = [['S', op] for op in b['ops']]
+        # flags: refused calls in between (and flags=0 written out)
+        for _ in range(rng.choice([0, 1, 1, 2])):
+            rops.insert(rng.randrange(len(rops) + 1), ['R', ['rf', rng.choice([0, 1, 2, 5]), rng.choice([0, 1, 2, 64])]])
+        for _ in range(rng.choice([0, 1, 1, 2])):
+            d = hx(self.rand_stream(rng, rng.choice([0, 1, 2, 3]), b'xyz'))
+            sops.insert(rng.randrange(len(sops)) if sops else 0,
+                        ['S', [rng.choice(['sf', 'saf']), d, rng.choice([0, 1, 2, 64])]])
+        nf_r = sum(1 for e in a['script'] if is_to(e))
+        rops += [['R', ['c', 'N']]] * (1 + nf_r)
+        sops += [['S', ['f']]]
+        # interleave, keeping each direction's order
+        order = [0] * len(rops) + [1] * len(sops)
+        rng.shuffle(order)
+        ir, it, ops = iter(rops), iter(sops), []
+        for w in order:
+            ops.append(next(ir) if w == 0 else next(it))
+        mode = rng.random()
+        rs_, ss_ = list(a['script']), list(b['script'])
+        c = {'k': 'dx', 'rs': a['rs'], 'ms': a['ms'], 'ops': ops}
+        if mode < 0.4:
+            rs_ = ['W' if e == 'T' and rng.random() < 0.6 else e for e in rs_]
+            ss_ = ['W' if e == 'T' and rng.random() < 0.6 else e for e in ss_]
+            if 'W' in rs_ or 'W' in ss_:
+                c['clk'] = 1
+        elif mode < 0.7:
+            rs_ = ['E' if e == 'T' and rng.random() < 0.6 else e for e in rs_]
+            ss_ = ['E' if e == 'T' and rng.random() < 0.6 else e for e in ss_]
+            if rng.random() < 0.5:
+                c['nb'] = 1
+        c['rscript'], c['sscript'] = rs_, ss_
         return c
 
     def rand_stream(self, rng, n, alpha):
@@ -835,32 +1047,95 @@ class C12(Property):
     def _ms_eff(cls, case):
         return cls._rcfg(case)[-1][1]
 
+    @staticmethod
+    def _rx_tok(op):
+        if op[0] in ('r', 'p', 's'):
+            return '%s%d' % (op[0], op[1])
+        if op[0] == 'u':
+            return 'u%d:%s:%s' % (op[1], op[2], op[3])
+        if op[0] == 'c':
+            return 'c%s' % op[1]
+        if op[0] == 'm':
+            return 'm%d' % op[1]
+        if op[0] == 'rf':
+            return 'F%d:%d' % (op[1], op[2])        # dx only
+        raise InfraError('bad rx op %r' % (op,))
+
+    @staticmethod
+    def _tx_tok(op):
+        if op[0] in ('s', 'sa'):
+            return 's' + op[1]
+        if op[0] == 'b':
+            return 'b' + op[1]
+        if op[0] in ('sf', 'saf'):
+            return 'F%s:%d' % (op[1], op[2])        # dx only
+        return 'f'
+
+    # ---- what the statement leaves free, resolved by observation before the model is asked
+    # (1) WHERE on the send side the code compares the clock with its deadline (after every sock.send? also after
+    #     the one that emptied the buffer?) - the statement quantifies over all placements of timeouts, the model
+    #     has the check after every sock.send.  A 'W' of a send script reaches the model as a deadline event
+    #     (`w`, SEv.clock) only if a deadline check of the code really fired for it; a 'W' that the socket turned
+    #     into socket.timeout (or that nothing used up) reaches it as `t` - on the verified code the two scripts
+    #     are indistinguishable (sendLoop treats a leading .clock and a leading .timeout alike).
+    # (2) whether recv / send REFUSE non-zero flags (ValueError) or take them: a call that was not refused
+    #     reaches the model as the plain call.
+    def _hint(self, case):
+        cache = self.__dict__.setdefault('_hints', {})
+        if len(cache) > 4000:
+            cache.clear()
+        ent = cache.get(id(case))
+        if ent is None or ent[0] is not case:
+            ent = (case, {})
+            cache[id(case)] = ent
+        return ent[1]
+
+    def _hints_for(self, case):
+        h = self._hint(case)
+        if 'w_how' not in h:
+            self.impl(case)         # line() asked before impl() ran on this object (replay, shrinking)
+            h = self._hint(case)
+        return h
+
+    def _sscript_tok_observed(self, case, key):
+        script = case[key]
+        if 'W' not in script:
+            return self._sscript_tok(script)
+        how = self._hints_for(case).get('w_how', [])
+        out, wi = [], 0
+        for e in script:
+            if e == 'W':
+                out.append('w' if wi < len(how) and how[wi] == 'C' else 't')
+                wi += 1
+            elif is_to(e):
+                out.append({'T': 't', 'E': 'e'}[e])
+            else:
+                out.append('a%d' % e[1])
+        return ','.join(out) or '-'
+
     def line(self, case):
         k = case['k']
         if k == 'rx':
             if case['rs'] < 1:
                 return None
-            toks = ['rx', str(case['rs']), str(case['ms']), str(case['retry']), self._script_tok(case['script'])]
-            for op in case['ops']:
-                if op[0] in ('r', 'p', 's'):
-                    toks.append('%s%d' % (op[0], op[1]))
-                elif op[0] == 'u':
-                    toks.append('u%d:%s:%s' % (op[1], op[2], op[3]))
-                elif op[0] == 'c':
-                    toks.append('c%s' % op[1])
-                elif op[0] == 'm':
-                    toks.append('m%d' % op[1])
-            return ' '.join(toks)
+            return ' '.join(['rx', str(case['rs']), str(case['ms']), str(case['retry']),
+                             self._script_tok(case['script'])] + [self._rx_tok(op) for op in case['ops']])
         if k == 'tx':
-            toks = ['tx', self._sscript_tok(case['script'])]
-            for op in case['ops']:
-                if op[0] in ('s', 'sa'):
-                    toks.append('s' + op[1])
-                elif op[0] == 'b':
-                    toks.append('b' + op[1])
-                else:
-                    toks.append('f')
-            return ' '.join(toks)
+            return ' '.join(['tx', self._sscript_tok_observed(case, 'script')] +
+                            [self._tx_tok(op) for op in case['ops']])
+        if k == 'dx':
+            if case['rs'] < 1:
+                return None
+            flagged = any(op[0] in ('rf', 'sf', 'saf') and op[2] != 0 for _, op in case['ops'])
+            refused = set(self._hints_for(case).get('refused', [])) if flagged else set()
+
+            def tok(i, side, op):
+                if op[0] in ('rf', 'sf', 'saf') and op[2] != 0 and i not in refused:
+                    op = ['r', op[1]] if op[0] == 'rf' else ['s', op[1]]       # flags taken: the plain call
+                return side + (self._rx_tok(op) if side == 'R' else self._tx_tok(op))
+            return ' '.join(['dx', str(case['rs']), str(case['ms']), self._script_tok(case['rscript']),
+                             self._sscript_tok_observed(case, 'sscript')] +
+                            [tok(i, side, op) for i, (side, op) in enumerate(case['ops'])])
         if k == 'ns':
             return ' '.join(['ns', str(case['ms']), self._sscript_tok(case['wscript']),
                              ','.join(map(str, case['cuts'])) or '-', str(case['nreads']), self._rcfg_tok(case)]
@@ -888,6 +1163,8 @@ class C12(Property):
             return {} if m == 'U' else {'maxsize': None} if m == 'N' else {'maxsize': m}
         if op[0] == 'r':
             return bs.recv(op[1])
+        if op[0] == 'rf':
+            return bs.recv(op[1], op[2])
         if op[0] == 'p':
             return bs.peek(op[1])
         if op[0] == 's':
@@ -910,33 +1187,87 @@ class C12(Property):
             pass
         return out
 
+    def _do_rx(self, bs, op, rec, clock, clk, ms):
+        """one receive-side public call on `bs`; the outcome goes into rec['r'] / rec['v']"""
+        clock.begin_call()
+        try:
+            with (patched_clock(clock) if clk else nullctx()):
+                if op[0] == 'm':
+                    v = bs.setmaxsize(op[1])
+                    rec['r'] = 'none' if v is None else 'exc:ret'
+                else:
+                    v = self._call_rx(bs, op, ms)
+                    rec['r'] = 'ok'
+                    rec['v'] = (hx(bytes(v)) if isinstance(v, (bytes, bytearray))
+                                else 'nonbytes:%s' % type(v).__name__)
+                    if not isinstance(v, bytes):
+                        self._live.append((v, rec))      # a mutable return value must not change later
+        except CaseTimeout:
+            raise
+        except Exception as e:
+            rec['r'] = EXC.get(exc_name(e), 'exc:' + exc_name(e))
+            if op[0] == 'rf' and op[2] != 0 and exc_name(e) == 'ValueError':
+                rec['r'] = 'valueerror'
+        clock.end_call(rec['r'])
+
+    def _do_tx(self, bs, op, rec, clock, clk, fs=None):
+        """one send-side public call on `bs`"""
+        clock.begin_call()
+        try:
+            with (patched_clock(clock) if clk else nullctx()):
+                if op[0] == 's':
+                    v = bs.send(unhx(op[1]))
+                elif op[0] == 'sa':
+                    v = bs.sendall(unhx(op[1]))
+                elif op[0] == 'sf':
+                    v = bs.send(unhx(op[1]), op[2])
+                elif op[0] == 'saf':
+                    v = bs.sendall(unhx(op[1]), op[2])
+                elif op[0] == 'b':
+                    v = bs.buffer(unhx(op[1]))
+                else:
+                    v = bs.flush()
+            rec['r'] = 'none' if v is None else 'sent:%d' % v if isinstance(v, int) else 'ret:%r' % (v,)
+        except CaseTimeout:
+            raise
+        except Exception as e:
+            rec['r'] = EXC.get(exc_name(e), 'exc:' + exc_name(e))
+            if op[0] in ('sf', 'saf') and op[2] != 0 and exc_name(e) == 'ValueError':
+                rec['r'] = 'valueerror'
+        clock.end_call(rec['r'], fs)
+
+    @staticmethod
+    def _tmo(case):
+        """the BufferedSocket timeout of a case: 1000.0 under the scripted clock, 0.0 = nonblocking (nb=1:
+        faults then come from the socket only, the code takes its `if not timeout` paths), else None"""
+        return CLK_TIMEOUT if case.get('clk') else 0.0 if case.get('nb') else None
+
+    def _check_live(self, out):
+        """return values that are not immutable bytes: still the value that was returned?"""
+        for v, rec in self._live:
+            try:
+                now = hx(bytes(v))
+            except Exception:
+                now = 'unreadable'
+            if now != rec.get('v'):
+                rec['v'] = 'nonbytes:changed-after-return(%s->%s)' % (rec.get('v'), now)
+        self._live = []
+
     def step_rx(self, case, out):
         """generator: performs one op of the case (with its retries) per step, appending records to `out`"""
         from boltons.socketutils import BufferedSocket
         fs = FakeSock(self._rscript(case['script']))
         clk = case.get('clk')
         clock = FakeClock(fs.rscript)
-        bs = BufferedSocket(fs, timeout=CLK_TIMEOUT if clk else None, maxsize=case['ms'], recvsize=case['rs'])
+        if clk:
+            fs.clock = clock
+        bs = BufferedSocket(fs, timeout=self._tmo(case), maxsize=case['ms'], recvsize=case['rs'])
         tries = 1 + (sum(1 for e in case['script'] if is_to(e)) if case['retry'] else 0)
         for i, op in enumerate(case['ops']):
             yield
             for _ in range(tries):
                 rec = {'op': i}
-                clock.begin_call()
-                try:
-                    with (patched_clock(clock) if clk else nullctx()):
-                        if op[0] == 'm':
-                            v = bs.setmaxsize(op[1])
-                            rec['r'] = 'none' if v is None else 'exc:ret'
-                        else:
-                            v = self._call_rx(bs, op, case['ms'])
-                            rec['r'] = 'ok'
-                            rec['v'] = (hx(bytes(v)) if isinstance(v, (bytes, bytearray))
-                                        else 'nonbytes:%s' % type(v).__name__)
-                except CaseTimeout:
-                    raise
-                except Exception as e:
-                    rec['r'] = EXC.get(exc_name(e), 'exc:' + exc_name(e))
+                self._do_rx(bs, op, rec, clock, clk, case['ms'])
                 rb = bs.getrecvbuffer()
                 rec['rbuf'] = hx(bytes(rb)) if isinstance(rb, (bytes, bytearray)) else 'nonbytes'
                 rec['und'] = hx(fs.undelivered())
@@ -949,30 +1280,18 @@ class C12(Property):
         fs = FakeSock((), self._sscript(case['script']))
         clk = case.get('clk')
         clock = FakeClock(fs.sscript)
-        bs = BufferedSocket(fs, timeout=CLK_TIMEOUT if clk else None)
+        if clk:
+            fs.clock = clock
+        bs = BufferedSocket(fs, timeout=self._tmo(case))
         for i, op in enumerate(case['ops']):
             yield
             rec = {'op': i}
-            clock.begin_call()
-            try:
-                with (patched_clock(clock) if clk else nullctx()):
-                    if op[0] == 's':
-                        v = bs.send(unhx(op[1]))
-                    elif op[0] == 'sa':
-                        v = bs.sendall(unhx(op[1]))
-                    elif op[0] == 'b':
-                        v = bs.buffer(unhx(op[1]))
-                    else:
-                        v = bs.flush()
-                rec['r'] = 'none' if v is None else 'sent:%d' % v if isinstance(v, int) else 'ret:%r' % (v,)
-            except CaseTimeout:
-                raise
-            except Exception as e:
-                rec['r'] = EXC.get(exc_name(e), 'exc:' + exc_name(e))
+            self._do_tx(bs, op, rec, clock, clk, fs)
             rec['sbuf'] = hx(bytes(bs.getsendbuffer()))
             rec['wire'] = hx(fs.wire)
             rec['left'] = sum(1 for e in fs.sscript if is_to(e))
             out.append(rec)
+            self._hint(case)['w_how'] = list(fs.w_how)
 
     def run_duo(self, case):
         """two sockets, calls interleaved as `order` says (then whatever is left of each)"""
@@ -999,6 +1318,35 @@ class C12(Property):
                 return {'recs': recs, 'left': recs[-1]['left'] if recs else sum(1 for e in c['script'] if is_to(e))}
             return {'recs': recs}
         return {'a': sub(case['a'], outs[0]), 'b': sub(case['b'], outs[1])}
+
+    def run_dx(self, case):
+        """ONE BufferedSocket over one scripted socket; receive-side and send-side calls interleaved, one
+        attempt each; after every call all four observables are recorded"""
+        from boltons.socketutils import BufferedSocket
+        fs = FakeSock(self._rscript(case['rscript']), self._sscript(case['sscript']))
+        clk = case.get('clk')
+        clock = FakeClock()
+        if clk:
+            fs.clock = clock
+        bs = BufferedSocket(fs, timeout=self._tmo(case), maxsize=case['ms'], recvsize=case['rs'])
+        out = []
+        for i, (side, op) in enumerate(case['ops']):
+            rec = {'op': i}
+            if side == 'R':
+                self._do_rx(bs, op, rec, clock, clk, case['ms'])
+            else:
+                self._do_tx(bs, op, rec, clock, clk, fs)
+            rb = bs.getrecvbuffer()
+            rec['rbuf'] = hx(bytes(rb)) if isinstance(rb, (bytes, bytearray)) else 'nonbytes'
+            rec['und'] = hx(fs.undelivered())
+            rec['sbuf'] = hx(bytes(bs.getsendbuffer()))
+            rec['wire'] = hx(fs.wire)
+            rec['left'] = sum(1 for e in fs.sscript if is_to(e))
+            out.append(rec)
+        h = self._hint(case)
+        h['w_how'] = list(fs.w_how)
+        h['refused'] = [r['op'] for r in out if r['r'] == 'valueerror']
+        return out
 
     @classmethod
     def _mk_ns(cls, fake, case):
@@ -1077,10 +1425,17 @@ class C12(Property):
 
     def impl(self, case):
         k = case['k']
+        self._live = []
         try:
             with time_limit(10):
+                if k == 'dx':
+                    recs = self.run_dx(case)
+                    self._check_live(recs)
+                    return {'recs': recs, 'left': recs[-1]['left'] if recs else
+                            sum(1 for e in case['sscript'] if is_to(e))}
                 if k == 'rx':
                     obs = {'recs': self.run_rx(case)}
+                    self._check_live(obs['recs'])
                     if case['retry'] and not any(op[0] == 'r' for op in case['ops']):
                         # "as when the whole stream arrives at once": the same calls, one chunk, no timeout
                         stream = b''.join(unhx(e) for e in case['script'] if not is_to(e))
@@ -1092,7 +1447,9 @@ class C12(Property):
                     return {'recs': recs, 'left': recs[-1]['left'] if recs else
                             sum(1 for e in case['script'] if is_to(e))}
                 if k == 'duo':
-                    return self.run_duo(case)
+                    obs = self.run_duo(case)
+                    self._check_live(None)
+                    return obs
                 if k == 'ns':
                     return self.run_ns(case)
                 if k == 'nsr':
@@ -1126,6 +1483,11 @@ class C12(Property):
         if k == 'tx':
             return '%s #%d' % (';'.join('%s/%s/%s' % (r['r'], r['sbuf'], r['wire']) for r in obs['recs']) or '-',
                                obs.get('left', 0))
+        if k == 'dx':
+            def one(r):
+                return 'ok:' + r['v'] if r['r'] == 'ok' else r['r']
+            return '%s #%d' % (';'.join('%s/%s/%s/%s' % (one(r), r['rbuf'], r['sbuf'], r['wire'])
+                                        for r in obs['recs']) or '-', obs.get('left', 0))
         if k == 'ns':
             return 'W:%s;%s;%s' % (','.join(obs['w']), obs['wire'], ','.join(obs['r']))
         if k == 'nsr':
@@ -1149,6 +1511,8 @@ class C12(Property):
             return self.oracle_ns(case, obs)
         if k == 'nsr':
             return self.oracle_nsr(case, obs)
+        if k == 'dx':
+            return self.oracle_dx(case, obs)
         if k == 'duo':
             # each socket must behave exactly as if the other one did not exist
             nt = False
@@ -1160,6 +1524,25 @@ class C12(Property):
                 nt = nt or self._nt
             self._nt = nt
             return None
+        return None
+
+    def oracle_dx(self, case, obs):
+        """one object, both directions: each direction is judged by its own oracle on the whole record list,
+        the calls of the other direction standing in as foreign calls ('x') that must neither hand over nor
+        accept a byte - so conservation of BOTH directions is checked after EVERY call of either"""
+        ops = case['ops']
+        rx_case = {'k': 'rx', 'rs': case['rs'], 'ms': case['ms'], 'retry': 0, 'script': case['rscript'],
+                   'ops': [op if side == 'R' else ['x'] for side, op in ops]}
+        tx_case = {'k': 'tx', 'script': case['sscript'], 'ops': [op if side == 'S' else ['x'] for side, op in ops]}
+        f = self.oracle_rx(rx_case, obs)
+        nt = self._nt
+        if f is None:
+            f = self.oracle_tx(tx_case, obs)
+            nt = nt or self._nt
+        if f is not None:
+            return Failure(f.tag, 'one BufferedSocket used in both directions: %s' % f.what)
+        both = any(side == 'R' for side, _ in ops) and any(side == 'S' for side, _ in ops)
+        self._nt = bool(nt and both)
         return None
 
     @staticmethod
@@ -1208,13 +1591,21 @@ class C12(Property):
         for rec in obs['recs']:
             op = case['ops'][rec['op']]
             r = rec['r']
-            self.bump('rx_%s_%s' % (op[0], r if not r.startswith('exc:') else 'exc'))
-            if r.startswith('exc:') or (r == 'ok' and rec['v'].startswith('nonbytes')):
+            if op[0] != 'x':
+                self.bump('rx_%s_%s' % (op[0], r if not r.startswith('exc:') else 'exc'))
+            if op[0] != 'x' and (r.startswith('exc:') or r.startswith('ret:') or
+                                 (r == 'ok' and rec['v'].startswith('nonbytes'))):
                 return Failure('raises', '%r raised/returned %s' % (op, r if r != 'ok' else rec['v']))
             if rec['rbuf'] == 'nonbytes':
                 return Failure('raises', 'getrecvbuffer() is not bytes')
             rbuf, und = unhx(rec['rbuf']), unhx(rec['und'])
-            if op[0] == 'm':
+            if op[0] == 'rf' and op[2] == 0:
+                op = ['r', op[1]]
+            if op[0] == 'x':
+                consumed = b''          # a send-side call on the same object: hands over nothing
+            elif op[0] == 'rf' and r == 'valueerror':
+                consumed = b''          # refused for its flags: nothing may have moved
+            elif op[0] == 'm':
                 if r != 'none':
                     return Failure('raises', 'setmaxsize -> %s' % r)
                 cur_ms = op[1]
@@ -1230,7 +1621,8 @@ class C12(Property):
                 if seen_e > n_e:
                     return Failure('raises', '%r raised an OSError the socket did not raise' % (op,))
                 consumed = b''
-            elif op[0] == 'r':
+            elif op[0] in ('r', 'rf'):
+                # (recv with non-zero flags that is not refused is held to the contract of recv)
                 if r != 'ok':
                     return Failure('recv', 'recv(%d) raised %s' % (op[1], r))
                 v = unhx(rec['v'])
@@ -1285,12 +1677,31 @@ class C12(Property):
         for rec in obs['recs']:
             op = case['ops'][rec['op']]
             r = rec['r']
+            sbuf, wire = unhx(rec['sbuf']), unhx(rec['wire'])
+            if op[0] == 'x':
+                # a receive-side call on the same object: accepts nothing, sends nothing
+                if wire != prev_wire or wire + sbuf != accepted:
+                    return Failure('send-conservation', 'a receive-side call changed the send side: wire %r + send '
+                                   'buffer %r, accepted %r, wire before %r' % (wire, sbuf, accepted, prev_wire))
+                continue
             self.bump('tx_%s_%s' % (op[0], r.split(':')[0]))
             if r.startswith('exc:') or r.startswith('ret:'):
                 return Failure('raises', '%r -> %s' % (op, r))
+            if op[0] in ('sf', 'saf'):
+                if op[2] == 0:
+                    op = [op[0][:-1], op[1]]
+                elif r == 'valueerror':
+                    # refused for its flags: nothing is sent; whether the refused data counts as accepted the
+                    # statement does not say - but it must not be half-accepted
+                    if wire != prev_wire or wire + sbuf not in (accepted, accepted + unhx(op[1])):
+                        return Failure('send-conservation', '%r refused with ValueError: wire %r + send buffer %r, '
+                                       'accepted before %r' % (op, wire, sbuf, accepted))
+                    accepted = wire + sbuf
+                    continue
+                else:
+                    op = [op[0][:-1], op[1]]        # flags taken: held to the contract of send
             if op[0] != 'f':
                 accepted += unhx(op[1])
-            sbuf, wire = unhx(rec['sbuf']), unhx(rec['wire'])
             if not wire.startswith(prev_wire):
                 return Failure('send-conservation', 'bytes already on the wire changed: %r -> %r' % (prev_wire, wire))
             if wire + sbuf != accepted:
@@ -1419,10 +1830,29 @@ class C12(Property):
                 yield dict(case, order=sorted(case['order']))
                 yield dict(case, order=sorted(case['order'], reverse=True))
             return
+        if k == 'dx':
+            ops = case['ops']
+            for i in range(len(ops)):
+                yield dict(case, ops=ops[:i] + ops[i + 1:])
+            for key in ('rscript', 'sscript'):
+                sc = case[key]
+                for i in range(len(sc)):
+                    yield dict(case, **{key: sc[:i] + sc[i + 1:]})
+            if case.get('clk'):
+                yield dict(case, clk=0, rscript=['T' if e == 'W' else e for e in case['rscript']],
+                           sscript=['T' if e == 'W' else e for e in case['sscript']])
+            if case.get('nb'):
+                yield dict(case, nb=0)
+            # one direction alone
+            yield dict(case, ops=[o for o in ops if o[0] == 'R'])
+            yield dict(case, ops=[o for o in ops if o[0] == 'S'])
+            return
         if k in ('rx', 'tx'):
             ops = case['ops']
             for i in range(len(ops)):
                 yield dict(case, ops=ops[:i] + ops[i + 1:])
+            if case.get('nb'):
+                yield dict(case, nb=0)
             if case.get('clk'):
                 # the same schedule with socket timeouts instead of wall-clock expiries
                 yield dict(case, clk=0, script=['T' if e == 'W' else e for e in case['script']])
